@@ -180,6 +180,17 @@ def expected(col, kind, value, opts, present=True):
             if col['kind'] == 'float32' and _f32_tie(value, [ext]):
                 return UNSPEC        # bound not representable in float32 and within rounding of the extreme: numpy's promotion decides
             return _bound_check(ext, value, precision or 'fuzzy', eps, is_min)
+        if fam == 'string':
+            # a string limit on a string field: plain string order; only the two exact precisions have a documented meaning
+            if not isinstance(value, str) or precision not in ('closed', 'open') or t is None:
+                return UNSPEC
+            ss = nonnull_strings(col)
+            if not ss:
+                return True
+            ext = min(ss) if is_min else max(ss)
+            if precision == 'closed':
+                return ext >= value if is_min else ext <= value
+            return ext > value if is_min else ext < value
         if fam == 'date':
             if not isinstance(value, str):
                 return UNSPEC
